@@ -46,9 +46,9 @@ package throttle
 //@   modifies throttler.recorder.open, throttler.recorder.inFile, throttler.recorder.wfault, throttler.recorder.starts, throttler.recorder.startOK, throttler.recorder.bg, throttler.recorder.thresh
 //@   ensures throttler.TInv()
 //@   ensures [C06] throttler.bucket.availableTokens >= throttler.minRecordingLength ==> (result == nil) == old(throttler.recorder.startOK) && throttler.recording == old(throttler.recorder.startOK) && throttler.recorder.starts == old(throttler.recorder.starts) + (old(throttler.recorder.startOK) ? 1 : 0) && throttler.listener.events == old(throttler.listener.events)
-//@   ensures [C06] throttler.bucket.availableTokens >= throttler.minRecordingLength && throttler.recording ==> throttler.recorder.bg == ref(background) && throttler.recorder.thresh == tempThresh
+//@   ensures [C06,C11,C15] throttler.bucket.availableTokens >= throttler.minRecordingLength && throttler.recording ==> throttler.recorder.bg == ref(background) && throttler.recorder.thresh == tempThresh
 //@   ensures [C06] throttler.bucket.availableTokens < throttler.minRecordingLength ==> result == nil && !throttler.recording && throttler.recorder.starts == old(throttler.recorder.starts) && throttler.listener.events == old(throttler.listener.events) + 1
-//@   ensures [C06] result == nil ==> throttler.backgroundFrame == background && throttler.tempThresh == tempThresh
+//@   ensures [C06,C11,C15] result == nil ==> throttler.backgroundFrame == background && throttler.tempThresh == tempThresh
 //@   ensures [C05] throttler.recorder.writes == old(throttler.recorder.writes) && throttler.bucket.gTaken == old(throttler.bucket.gTaken)
 
 //@ func (throttler *ThrottledRecorder) StopRecording
@@ -73,7 +73,7 @@ package throttle
 //@   ensures [C06] old(throttler.recording) ==> throttler.recorder.starts == old(throttler.recorder.starts)
 //@   ensures [C06] old(throttler.recording) && throttler.recorder.writes == old(throttler.recorder.writes) ==> throttler.listener.events == old(throttler.listener.events) + 1 && throttler.recorder.stops == old(throttler.recorder.stops) + 1 && !throttler.recording && throttler.recorder.inFile >= throttler.minRecordingLength
 //@   ensures [C06] !old(throttler.recording) ==> (throttler.recorder.starts != old(throttler.recorder.starts)) == (throttler.bucket.availableTokens + (throttler.bucket.gTaken - old(throttler.bucket.gTaken)) >= throttler.minRecordingLength && old(throttler.recorder.startOK))
-//@   ensures [C06] !old(throttler.recording) && throttler.recorder.starts != old(throttler.recorder.starts) ==> throttler.recorder.bg == ref(old(throttler.backgroundFrame)) && throttler.recorder.thresh == old(throttler.tempThresh)
+//@   ensures [C06,C11,C15] !old(throttler.recording) && throttler.recorder.starts != old(throttler.recorder.starts) ==> throttler.recorder.bg == ref(old(throttler.backgroundFrame)) && throttler.recorder.thresh == old(throttler.tempThresh)
 //@   ensures [C06] !old(throttler.recording) && throttler.recorder.starts == old(throttler.recorder.starts) ==> throttler.recorder.writes == old(throttler.recorder.writes) && throttler.listener.events == old(throttler.listener.events) && throttler.recorder.stops == old(throttler.recorder.stops) && !throttler.recording
 //@   ensures [C06] !old(throttler.recording) && throttler.recorder.starts != old(throttler.recorder.starts) && throttler.minRecordingLength >= 1 ==> throttler.recorder.writes == old(throttler.recorder.writes) + 1
 //@   ensures [C06] throttler.listener.events == old(throttler.listener.events) || throttler.listener.events == old(throttler.listener.events) + 1
